@@ -68,7 +68,10 @@ def build(tier, rnd):
     return cases
 
 
-def scenario(c, exp, rate=False, refuse_first=False, json_out=False):
+POLICY_NAME = 'Hardened OpenSSH Server v9.4 (version 2)'
+
+
+def scenario(c, exp, rate=False, refuse_first=False, json_out=False, policy=False):
     srv = c08.healthy()['warn']
     servers = {}
     if not exp['rejected'] and not exp['skipped']:
@@ -85,6 +88,8 @@ def scenario(c, exp, rate=False, refuse_first=False, json_out=False):
         argv += ['-' + c['fam']] if len(c['fam']) == 1 else ['-' + c['fam'][0], '-' + c['fam'][1]]
     if c['popt_arg'] is not None:
         argv += ['-p', c['popt_arg']]
+    if policy:
+        argv += ['-P', POLICY_NAME]
     files = {}
     if c['source'] == 'argv':
         argv.append(c['spelling'])
@@ -226,6 +231,8 @@ def run(tier):
             variants.append(dict(rate=True))
         if c['id'] % 5 == 0:
             variants.append(dict(json_out=True))
+        if not e['rejected'] and not e['skipped'] and c['source'] == 'argv' and (c['host_kind'] == 'v6' or c['id'] % 7 == 0):
+            variants.append(dict(policy=True))          # a policy audit labels its verdict with the target too ('Host:' line)
         for v in variants:
             scs.append(scenario(c, e, **v))
             meta.append((c, e, v))
@@ -339,6 +346,13 @@ def _label(c, e, v, r):
         want = '%s:%d' % (host, port)
         if not any(isinstance(x, dict) and x.get('target') == want for x in els):
             return ('label view=json', 'JSON target %r, the target is %r' % ([x.get('target') for x in els if isinstance(x, dict)], want))
+        return None
+    if v.get('policy'):
+        import re
+        want = host if port == 22 else ('[%s]:%d' % (host, port) if v6 else '%s:%d' % (host, port))
+        got = re.findall(r'^Host:\s+(.*)$', r['stdout'], re.M)
+        if got != [want]:
+            return ('label view=policy-text', 'policy verdict labelled %r, the target is %r' % (got, want))
         return None
     if c['source'] == 'file':
         want = host if port == 22 else ('[%s]:%d' % (host, port) if v6 else '%s:%d' % (host, port))
